@@ -43,7 +43,7 @@ func extractURL(req *http.Request) *url.URL {
 	if val := req.Header.Get("X-Forwarded-Uri"); len(val) != 0 {
 		if forwardedURI, err := url.Parse(val); err == nil {
 			rawPath = forwardedURI.EscapedPath()
-			query = forwardedURI.Query().Encode()
+			query = forwardedURI.RawQuery
 		}
 	}
 
